@@ -3,6 +3,16 @@
 // Contracts for package api (comment-only; read by /verif/bin/govc, see /verif/DESIGN.md §2.3).
 package api
 
+//@ // ---- C14 (flag level): the value read for each command-line flag, by flag name, as the trigger builders' New
+//@ // closures read them from the flag set; GFrates = what the trigger's Calculate* function returned.
+//@ ghost var GFflt map[string]real
+//@ ghost var GFdur map[string]int
+//@ ghost var GFstr map[string]string
+//@ ghost var GFrates *Rates
+//@ ghost var GFint map[string]int
+//@ ghost var GFbool map[string]bool
+//@ ghost var GFtrig *Trigger
+//@
 //@ // ---- C12: distributing a rate over sub-ticks
 //@ ghost var G12R int
 //@ ghost var G12E int
